@@ -429,6 +429,75 @@ class SKey(SInt):
         return f'SKey({self.t})'
 
 
+class SStr:
+    """Symbolic string (z3 String) with the operations path/name checks use: ==, !=, in, +, startswith,
+    endswith, len() comparisons through .length(); repr/format never concretise."""
+    __slots__ = ('t',)
+
+    def __init__(self, t):
+        self.t = z3.StringVal(t) if isinstance(t, str) else t
+
+    @staticmethod
+    def _lift(o):
+        if isinstance(o, SStr):
+            return o.t
+        if isinstance(o, str):
+            return z3.StringVal(o)
+        return None
+
+    def __eq__(self, o):
+        ot = self._lift(o)
+        return SBool(False) if ot is None else SBool(z3.simplify(self.t == ot))
+
+    def __ne__(self, o):
+        ot = self._lift(o)
+        return SBool(True) if ot is None else SBool(z3.simplify(self.t != ot))
+
+    def __hash__(self):
+        return 0
+
+    def __contains__(self, o):
+        ot = self._lift(o)
+        if ot is None:
+            raise TypeError('in <string> requires string as left operand')
+        return bool(SBool(z3.simplify(z3.Contains(self.t, ot))))
+
+    def contains(self, o):
+        return SBool(z3.Contains(self.t, self._lift(o)))
+
+    def __add__(self, o):
+        ot = self._lift(o)
+        return NotImplemented if ot is None else SStr(z3.Concat(self.t, ot))
+
+    def __radd__(self, o):
+        ot = self._lift(o)
+        return NotImplemented if ot is None else SStr(z3.Concat(ot, self.t))
+
+    def startswith(self, o):
+        return bool(SBool(z3.PrefixOf(self._lift(o), self.t)))
+
+    def endswith(self, o):
+        return bool(SBool(z3.SuffixOf(self._lift(o), self.t)))
+
+    def length(self):
+        return SInt(z3.Length(self.t))
+
+    def __len__(self):
+        return CUR.concretize_int(z3.Length(self.t))
+
+    def __bool__(self):
+        return bool(SBool(z3.simplify(z3.Length(self.t) > 0)))
+
+    def __repr__(self):
+        return f'SStr({self.t})'
+
+    def __str__(self):
+        raise UnsupportedSymbolic('str() of a symbolic string')
+
+    def __format__(self, spec):
+        return repr(self)
+
+
 def f_real(si, o, f):
     return NotImplemented
 
@@ -1054,6 +1123,9 @@ class Explorer:
             self.solver.add(r >= 0)
         return self._reg(name, x)
 
+    def str(self, name):
+        return self._reg(name, SStr(z3.String(name)))
+
     def key(self, name):
         """arbitrary hashable value (equality only)"""
         return self._reg(name, SKey(z3.Int(name)))
@@ -1150,6 +1222,8 @@ class Explorer:
         if isinstance(p, SBool):
             t = p.t
             return bool(t) if isinstance(t, bool) else z3.is_true(m.eval(t, model_completion=True))
+        if isinstance(p, SStr):
+            return m.eval(p.t, model_completion=True).as_string()
         if isinstance(p, SInt):
             return m.eval(p.t, model_completion=True).as_long()
         if isinstance(p, SReal):
@@ -1277,6 +1351,9 @@ class Concrete:
 
     def key(self, name):
         return int(self.given[name])
+
+    def str(self, name):
+        return self.given[name]
 
     def choice(self, n, label='choice'):
         if self._ci >= len(self._choices):
